@@ -104,6 +104,7 @@ func c08prop(ev *evid.Rec) func(rt *rapid.T) {
 			k = genOffset(rt, "offset", size)
 		}
 		inFolder := rapid.Bool().Draw(rt, "infolder")
+		own := rapid.IntRange(0, 3).Draw(rt, "ownroot") == 0
 		// how the client's bytes on the transfer connection are cut into segments ("" = one Write per message)
 		seg := rapid.SampledFrom([]string{"", "", "random", "header", "bytes"}).Draw(rt, "segmentation")
 		segSeed := rapid.Uint64().Draw(rt, "segseed")
@@ -116,14 +117,24 @@ func c08prop(ev *evid.Rec) func(rt *rapid.T) {
 					return nil
 				}
 			}
-			dir := w.FileRoot
+			base := w.FileRoot
+			if own {
+				// the account has a file root of its own; the server-wide root holds a different file under the same name
+				base = ownRoot(rt, w, acct("admin", "Admin", "adminpw", allAccess))
+			}
+			dir := base
 			var path []byte
 			if inFolder {
-				dir = filepath.Join(w.FileRoot, "sub folder")
+				dir = filepath.Join(base, "sub folder")
 				must(os.MkdirAll(dir, 0o755))
 				path = p1("sub folder")
 			}
 			must(os.WriteFile(filepath.Join(dir, name), content, 0o644))
+			if own {
+				decoy := filepath.Join(w.FileRoot, strings.TrimPrefix(dir, base))
+				must(os.MkdirAll(decoy, 0o755))
+				must(os.WriteFile(filepath.Join(decoy, name), append([]byte("not this file: "), content...), 0o644))
+			}
 			wireName := macRoman(name)
 			if storedInfo {
 				inf := hlref.InfoFork{Platform: [4]byte{'A', 'M', 'A', 'C'}, Type: [4]byte{'A', 'B', 'C', 'D'}, Creator: [4]byte{'W', 'X', 'Y', 'Z'}, Name: wireName, Comment: []byte(comment)}
@@ -203,7 +214,7 @@ func c08prop(ev *evid.Rec) func(rt *rapid.T) {
 			}
 		})
 		nt := size > 0 && (k > 0 || storedInfo || storedRsrc || size > 32768)
-		ev.Case(evid.Hash(name, content, mode, k, storedInfo, storedRsrc, rsrc, seg, segSeed), nt, "mode:"+mode, "segmentation:"+seg, fmt.Sprintf("info:%v", storedInfo), fmt.Sprintf("rsrc:%v", storedRsrc), sizeClass(size))
+		ev.Case(evid.Hash(name, content, mode, k, storedInfo, storedRsrc, rsrc, seg, segSeed, own), nt, "mode:"+mode, "segmentation:"+seg, fmt.Sprintf("own-root:%v", own), fmt.Sprintf("info:%v", storedInfo), fmt.Sprintf("rsrc:%v", storedRsrc), sizeClass(size))
 		if nt && ev.WantSample() {
 			ev.Sample(map[string]any{"name": name, "size": size, "mode": mode, "resume_offset": k, "stored_info_fork": storedInfo, "stored_resource_fork": storedRsrc})
 		}
